@@ -6,7 +6,7 @@
     Shear.shear_solver_exact_l), holds of the GENERATED function: [gen_solver_exact]. *)
 From Coq Require Import Reals List Bool Arith ZArith Lia Lra.
 From Cij Require Import Ops ROps VoigtBase Voigt ShearModel Shear.
-From CijGen Require Import Gen_voigt ShearTieBase ShearTieLemmas Gen_shear Tie_shear_fict Tie_shear_energy Tie_shear_keys Tie_shear_frame.
+From CijGen Require Import Gen_voigt ShearTieBase ShearTieLemmas Gen_shear Tie_shear_fict Tie_shear_energy Tie_shear_keys.
 Import ListNotations.
 Local Open Scope R_scope.
 
@@ -31,13 +31,6 @@ Proof.
   unfold gen_fictitious_strain_energy_rotated. rewrite tie_energy.
   apply energy_ext; intros; reflexivity.
 Qed.
-
-Ltac key_facts :=
-  cbv [zidx orb gen_C mod_create mod_from_voigt strain_from_voigt zlookup voigt_table obind sort2_by sv rlookup
-       strain_eqb mod_standard multiplicity b2z negb andb fst snd Z.of_nat Pos.of_succ_nat Pos.succ
-       Z.eqb Z.ltb Z.compare Pos.eqb Pos.compare Pos.compare_cont Z.shiftl Pos.iter Z.mul Pos.mul Z.sub Z.add Z.opp
-       Z.pos_sub Pos.pred_double Z.succ_double Z.pred_double Z.double Z.to_nat Pos.to_nat Pos.iter_op Nat.add
-       Init.Nat.add std_of mult Nat.eqb Nat.ltb Nat.leb Nat.mul Init.Nat.mul Pos.add Pos.add_carry].
 
 Lemma tie_target (isz : R -> bool) (s : gself R) : In (g_key s) all_keys ->
   gen_get_target_elastic_modulus isz s
@@ -100,16 +93,8 @@ Proof.
   - exact Hr.
 Qed.
 
-(** non-vacuity: the hypotheses are satisfiable for every tensor (Tie_shear_frame.v: explicit frame for c44) *)
-Example gen_solver_exact_nonvacuous :
-  exists (lam : nat -> R) (T : nat -> nat -> R), forall (c : vkey -> R) (e : nat -> R) (iso : R),
-    gen_get_target_elastic_modulus Ris0
-      (mk_gself (4, 4)%nat e (lam, T) c (fun key => rotate T c (fst key - 1) (snd key - 1)) iso) = c (4, 4)%nat.
-Proof.
-  destruct solver_hypotheses_satisfiable as (lam & T & Hk & Hd & Hr). exists lam, T. intros c e iso.
-  apply gen_solver_exact; [exact Hk | exact Hd | apply Hr].
-Qed.
+(** non-vacuity of the hypotheses: Tie_shear_frame.v (solver_hypotheses_satisfiable, for every tensor) *)
 
 Definition tie_group_target :=
   (tie_get_elastic_modulus, tie_fse, tie_fse_rotated, tie_target, tie_value_isothermal, tie_modulus_keys_all,
-   gen_solver_exact, gen_solver_exact', gen_solver_exact_nonvacuous).
+   gen_solver_exact, gen_solver_exact').
